@@ -191,7 +191,7 @@ def _site_cases(pred, domains, foreign_decoys):
         for vname, h in host_variants(d):
             for p in PATHS:
                 yield {"kind": "site", "pred": pred, "rest": h + p, "variant": vname}
-            for ui in ("user@", "user:pw@", d + "@", "u:" + d + "@"):
+            for ui in ("user@", "user:pw@", d + "@", "u:" + d + "@", "john@doe.com:pw@", "a@b@", d + "@x@"):   # urlsplit takes the *last* '@' as the end of the userinfo
                 yield {"kind": "site", "pred": pred, "rest": ui + h + "/abc", "variant": vname, "decoy": "userinfo"}
             for dec in foreign_decoys:
                 yield {"kind": "site", "pred": pred, "rest": h + dec, "variant": vname, "decoy": True}
@@ -203,6 +203,8 @@ def _site_cases(pred, domains, foreign_decoys):
             yield {"kind": "site", "pred": pred, "rest": "%s:pw@%s/abc" % (d, fh), "variant": "foreign-host", "decoy": "userinfo"}
             yield {"kind": "site", "pred": pred, "rest": "%s:%s@%s" % (d, d, fh), "variant": "foreign-host", "decoy": "userinfo"}
             yield {"kind": "site", "pred": pred, "rest": "%s:8080@%s/" % (d, fh), "variant": "foreign-host", "decoy": "userinfo"}
+            yield {"kind": "site", "pred": pred, "rest": "u@%s@%s/abc" % (d, fh), "variant": "foreign-host", "decoy": "userinfo"}
+            yield {"kind": "site", "pred": pred, "rest": "%s@u@%s/abc" % (d, fh), "variant": "foreign-host", "decoy": "userinfo"}
             yield {"kind": "site", "pred": pred, "rest": "u:p@%s/@%s" % (fh, d), "variant": "foreign-host", "decoy": True}
 
 
